@@ -170,17 +170,27 @@ def check(prop, tier, seed, jobs):
     if tier == 'thorough':
         for h in hs:
             if h.conc:
-                tasks.append(('random', h.name, {'n': 400, 'seed': seed}))
+                tasks.append(('random', h.name, {'n': 3000, 'seed': seed}))
     bmods = bounded_modules(prop)
     for b in bmods:
         tasks.append(('bounded', b, {'tier': tier, 'seed': seed, 'budget_s': 25.0 if tier == 'quick' else 600.0,
                                      'jobs': 1 if tier == 'quick' else max(1, jobs // max(1, len(bmods)))}))
     results = []
+    # bounded stand-ins may start their own worker processes (thorough tier): they run in non-daemonic executor workers
+    btasks = [t for t in tasks if t[0] == 'bounded']
+    tasks = [t for t in tasks if t[0] != 'bounded']
+    from concurrent.futures import ProcessPoolExecutor
+    bex = ProcessPoolExecutor(max_workers=max(1, len(btasks)), mp_context=mp.get_context('fork')) if btasks else None
+    bfut = [bex.submit(_task, t) for t in btasks] if bex else []
     if tasks:
         ctxm = mp.get_context('fork')
         with ctxm.Pool(min(jobs, len(tasks)), maxtasksperchild=1) as pool:
             for r in pool.imap_unordered(_task, tasks, chunksize=1):
                 results.append(r)
+    for f in bfut:
+        results.append(f.result())
+    if bex:
+        bex.shutdown()
     crashes = [r for r in results if r.get('crash')]
     known = load_known()
     # Lean lemmas (code-independent corollaries over contracts): hash-stamped, re-checked when the file changed
